@@ -133,6 +133,50 @@ def run_task(t):
         if t.get('files'):
             out['file'] = file_leg(t['a'], t['b'])
         return out
+    if op == 'nbdiff_ignore':
+        import nbdime.diffing.notebooks as N
+        cats = ['sources', 'outputs', 'attachments', 'metadata', 'id', 'details']
+        ignored = set(t['ignored']); mode = t['mode']
+        # no reset here: each way of giving the options must by itself determine what is ignored,
+        # whatever was configured earlier in this process (the Ignore mapping is incremental by design,
+        # so that mode starts from the documented reset helper)
+        if mode == 'cfg': N.reset_notebook_differ()
+        try:
+            if mode == 'api':
+                N.set_notebook_diff_targets(sources='sources' not in ignored, outputs='outputs' not in ignored,
+                                            attachments='attachments' not in ignored, metadata='metadata' not in ignored,
+                                            identifier='id' not in ignored, details='details' not in ignored)
+            elif mode in ('pos', 'neg'):
+                import nbdime.nbdiffapp as A
+                from nbdime.args import process_diff_flags
+                letters = dict(zip(cats, 'soamid'))
+                if mode == 'pos': flags = ['-' + letters[c] for c in cats if c not in ignored]
+                else: flags = ['-' + letters[c].upper() for c in cats if c in ignored]
+                ns = A._build_arg_parser().parse_args(flags)
+                process_diff_flags(ns)
+            elif mode == 'cfg':
+                N.set_notebook_diff_ignores(t['mapping'])
+            a, b = as_nb(t['a']), as_nb(t['b'])
+            d = N.diff_notebooks(a, b)
+            dj = clean(d)
+            orc = REC.dump()
+            try:
+                p = clean(nbdime.patch_notebook(as_nb(t['a']), to_diffentry_dicts(json.loads(json.dumps(dj)))))
+                pr = {'ok': p}
+            except Exception as e:
+                pr = exc_info(e)
+            differs = {k: getattr(v, '__name__', repr(v)) for k, v in dict.items(N.notebook_differs)}
+            return {'ok': dj, 'patched': pr, 'table_keys': sorted(differs), 'oracles': orc}
+        finally:
+            pass
+    if op == 'merge_decisions':
+        from nbdime.merging.notebooks import decide_notebook_merge
+        import argparse
+        b, l, r = as_nb(t['base']), as_nb(t['local']), as_nb(t['remote'])
+        args = argparse.Namespace(merge_strategy=t.get('strategy', 'inline'), input_strategy=None, output_strategy=None,
+                                  ignore_transients=t.get('ignore_transients', True), log_level='INFO')
+        decisions = decide_notebook_merge(b, l, r, args=args)
+        return {'ok': clean(decisions)}
     raise ValueError('unknown op ' + op)
 
 def main():
